@@ -5,5 +5,11 @@ CLAIMS = {
   "note": "Trusted: the byte-loop oracle in the harness; mmap/mprotect + debug.SetPanicOnFault to observe out-of-bounds access; amd64 only (the arm64 assembly cannot run here). Needs the verif-tag export hook.",
   "technique": "exhaustive enumeration against a byte-loop oracle (differential across implementations), guard bytes and guard pages",
  },
+
+ "C06": {
+  "text": "Exhaustive in the code dimension, generated elsewhere: local Close(code, reason) is run for every one of the 65536 wire codes plus out-of-range values, and a received Close frame for every 16-bit code, each with a reason-length class, role and timing (idle / after a message / with a read pending / read started afterwards) derived from VERIF_SEED, against a scripted raw peer in virtual time; rapid then draws mixed cases including library<->library closes and Close/CloseNow call sequences of length 2-4 (sequential and concurrent). Oracle: independent sendable-code table, exact Close-frame payload on the wire, CloseError/CloseStatus on the reading side, echo payload, nil from Close when the peer echoes, every later Read/Reader/Write/Writer/Ping failing and later Close/CloseNow matching net.ErrClosed. Only the first Close frame is judged here (C16 covers what follows).",
+  "note": "Trusted: the harness's close-code table (RFC 6455 7.4 + IANA) and frame parser; testing/synctest virtual time. Does not assert what Close returns when the peer answers with a different code or not at all (not stated by the property).",
+  "technique": "exhaustive enumeration of close codes + rapid-generated histories against an independent code table and wire parser, in virtual time",
+ },
 }
 PENDING = {}
